@@ -871,7 +871,8 @@ class PyReader:
             if base is not None:
                 if isinstance(base, dict):
                     if n.func.attr == "items":
-                        return [[k, v] for k, v in base.items()]
+                        # a tuple of values used as a key is handed back as the sequence it is (token tuples start with their tag, a string)
+                        return [[list(k) if isinstance(k, tuple) and k and not isinstance(k[0], str) else k, v] for k, v in base.items()]
                     if n.func.attr == "values":
                         return list(base.values())
                     if n.func.attr == "keys":
